@@ -198,7 +198,30 @@ fn main() {
     let mut lines = 0usize;
     let mut fails = 0usize;
     let mut sources: Vec<(String, &'static str)> = vec![];
-    if args.len() > 5 {
+    let mut replay_imports: Vec<Vec<(String, String)>> = vec![];
+    let replaying = args.len() > 6 && args[5] == "--replay";
+    if replaying {
+        // every `imports=[name:hex,...] source=<hex>` of a replay file written by ./check
+        let text = std::fs::read_to_string(&args[6]).unwrap_or_default();
+        for (i, _) in text.match_indices("imports=[") {
+            let rest = &text[i + 9..];
+            let Some(end) = rest.find(']') else { continue };
+            let imps: Vec<(String, String)> = rest[..end].split(',').filter(|t| !t.is_empty()).filter_map(|t| {
+                let (n, h) = t.split_once(':')?;
+                Some((n.to_string(), String::from_utf8(verif_harness::unhex(h)?).ok()?))
+            }).collect();
+            let after = &rest[end + 1..];
+            if let Some(j) = after.find("source=") {
+                let h: String = after[j + 7..].chars().take_while(|c| c.is_ascii_hexdigit()).collect();
+                if let Some(b) = verif_harness::unhex(&h) {
+                    if let Ok(src) = String::from_utf8(b) {
+                        sources.push((src, "replay"));
+                        replay_imports.push(imps);
+                    }
+                }
+            }
+        }
+    } else if args.len() > 5 {
         if let Ok(text) = std::fs::read_to_string(&args[5]) {
             for l in text.lines() {
                 let l = l.trim();
@@ -214,12 +237,12 @@ fn main() {
         }
     }
     // the repository's files as they are, once
-    if seed % 1000 == 0 {
+    if seed % 1000 == 0 && !replaying {
         for f in &files {
             sources.push((f.clone(), "repo"));
         }
     }
-    for _ in 0..cases {
+    for _ in 0..(if replaying { 0 } else { cases }) {
         let mut r = rng.fork();
         match r.below(10) {
             0 | 1 => sources.push((soup(&mut r), "soup")),
@@ -234,7 +257,7 @@ fn main() {
             }
         }
     }
-    for (src, kind) in &sources {
+    for (idx, (src, kind)) in sources.iter().enumerate() {
         let mut r = rng.fork();
         // some of the imports exist (as small valid schemas, as the source itself, or as garbage), some do not
         let mut provided: Vec<(String, String)> = vec![];
@@ -246,6 +269,9 @@ fn main() {
                 3 => provided.push((n, "struct {".to_string())),
                 _ => provided.push((n, files[r.below(files.len() as u64) as usize].clone())),
             }
+        }
+        if replaying {
+            provided = replay_imports[idx].clone();
         }
         let h = hexs(src);
         let ctx = format!("kind={} imports=[{}] source={}", kind, provided.iter().map(|(n, s)| format!("{}:{}", n, hexs(s))).collect::<Vec<_>>().join(","), h);
